@@ -1,6 +1,8 @@
 package main
 
 import (
+	"runtime"
+	"strconv"
 	"bytes"
 	"context"
 	"fmt"
@@ -226,7 +228,15 @@ func Solve(query string, timeoutS int, seed int, usesZ3Ext bool, needModel bool)
 		}
 		return best
 	}
+	// wall-clock budgets are scaled by the machine's load so that a verdict does not depend on what else is running:
+	// factor = 1-minute load average / number of CPUs, between 1 and 8
+	if lf := loadFactor(); lf > 1 {
+		timeoutS = int(float64(timeoutS)*lf + 0.5)
+	}
 	short := 3
+	if lf := loadFactor(); lf > 1 {
+		short = int(3*lf + 0.5)
+	}
 	if timeoutS < short {
 		short = timeoutS
 	}
@@ -248,4 +258,28 @@ func Solve(query string, timeoutS int, seed int, usesZ3Ext bool, needModel bool)
 
 func writeFile(path string, s string) error {
 	return os.WriteFile(path, []byte(s), 0o644)
+}
+
+
+func loadFactor() float64 {
+	b, err := os.ReadFile("/proc/loadavg")
+	if err != nil {
+		return 1
+	}
+	f := strings.Fields(string(b))
+	if len(f) == 0 {
+		return 1
+	}
+	l, err := strconv.ParseFloat(f[0], 64)
+	if err != nil {
+		return 1
+	}
+	x := l / float64(runtime.NumCPU())
+	if x < 1 {
+		return 1
+	}
+	if x > 8 {
+		return 8
+	}
+	return x
 }
